@@ -403,6 +403,14 @@ func c12StructuredDocs(quick bool) [][]byte {
 	for _, d := range SinkByteDocs() {
 		add(d)
 	}
+	c02DepthChains(map[bool]int{true: 40, false: 100}[quick], func(doc []Blk, n, k int) {
+		md, _ := PrintMarkdown(doc, nil)
+		add([]byte(md))
+		md2, _ := PrintMarkdownPrefer(doc, nil, map[string]int{"item-blocks-blank-line": 1})
+		if md2 != md {
+			add([]byte(md2))
+		}
+	})
 	for _, d := range SinkLineShapeDocs() {
 		add(d)
 	}
